@@ -530,6 +530,73 @@ fn lincode_shape_proof(pf: &Vec<ark_poly_commit::linear_codes::LinCodePCProof<Fr
     v
 }
 
+/// C03 attack "authentic columns at shifted positions": the Reed-Solomon code is cyclic, so scaling column k of the
+/// coefficient matrix by w^k (w = generator of the encoding domain) rotates every encoded row by one position.  The
+/// library's own prover is run on that related polynomial p' against the ORIGINAL Merkle root (same transcript as the
+/// verifier will replay); its columns are the original columns of the next leaf, and their authentic paths in the
+/// original tree are harvested from honest openings of p.  The crafted proof argues for p'(z) != p(z); it is rejected
+/// as long as the verifier ties every path to the position the transcript asked for.
+macro_rules! rs_transplant_attack {
+    ($pc:ty, $scale:expr, $eval:expr) => {
+        fn attack(kind: &str, ck: &CK<Self>, polys: &[&ark_poly_commit::LabeledPolynomial<Fr, Self::P>],
+                  comms: &[&LabeledCommitment<Cm<Self>>], states: &[&St<Self>], pt: &Pt<Self>,
+                  sponge: &mut crate::sponge::RecSponge<Fr>, _args: &[String]) -> Option<(Pf<Self>, Vec<Fr>)> {
+            use ark_poly::EvaluationDomain;
+            use ark_poly_commit::linear_codes::verif_hooks as lh;
+            use ark_crypto_primitives::sponge::CryptographicSponge;
+            if kind != "rs_transplant" || polys.is_empty() { return None; }
+            let (_n_rows, n_cols, n_ext) = lh::commitment_metadata(comms[0].commitment());
+            let dom = ark_poly::GeneralEvaluationDomain::<Fr>::new(n_ext)?;
+            if dom.size() != n_ext { return None; }
+            let w = dom.group_gen();
+            let scale: fn(&Self::P, usize, Fr) -> Self::P = $scale;
+            let evalf: fn(&Self::P, &Pt<Self>) -> Fr = $eval;
+            let p0 = polys[0].polynomial();
+            let p1 = scale(p0, n_cols, w);
+            let truth = evalf(p0, pt);
+            let fake = evalf(&p1, pt);
+            if truth == fake { return None; }
+            let lp1 = ark_poly_commit::LabeledPolynomial::new(polys[0].label().clone(), p1, None, None);
+            let (cm1, st1) = <$pc>::commit(ck, [&lp1], None).ok()?;
+            // the related polynomial's commitment, carrying the original root
+            let mut c1 = cm1[0].commitment().clone();
+            let mut orig = comms[0].commitment().clone();
+            *lh::commitment_root_mut(&mut c1) = lh::commitment_root_mut(&mut orig).clone();
+            let lc1 = LabeledCommitment::new(polys[0].label().clone(), c1, None);
+            let mut lps: Vec<&ark_poly_commit::LabeledPolynomial<Fr, Self::P>> = vec![&lp1];
+            lps.extend(polys[1..].iter().cloned());
+            let mut lcs: Vec<&LabeledCommitment<Cm<Self>>> = vec![&lc1];
+            lcs.extend(comms[1..].iter().cloned());
+            let mut sts: Vec<&St<Self>> = vec![&st1[0]];
+            sts.extend(states[1..].iter().cloned());
+            let mut pf = <$pc>::open(ck, lps, lcs, pt, sponge, sts, None).ok()?;
+            // positions the transcript asked for, and the authentic (path, column) of the following leaves
+            let want: Vec<usize> = { let (paths, _, _, _) = lh::proof_parts(&pf[0]); paths.iter().map(|p| (p.leaf_index + 1) % n_ext).collect() };
+            let mut have: std::collections::HashMap<usize, (ark_crypto_primitives::merkle_tree::Path<MTConfig>, Vec<Fr>)> = std::collections::HashMap::new();
+            for k in 0..600u64 {
+                if want.iter().all(|i| have.contains_key(i)) { break; }
+                let mut sp = crate::sponge::RecSponge::<Fr>::fresh();
+                sp.absorb(&Fr::from(k + 1));
+                let h = <$pc>::open(ck, [polys[0]], [comms[0]], pt, &mut sp, [states[0]], None).ok()?;
+                let (paths, _, cols, _) = lh::proof_parts(&h[0]);
+                for (pa, co) in paths.iter().zip(cols.iter()) { have.entry(pa.leaf_index).or_insert((pa.clone(), co.clone())); }
+            }
+            if !want.iter().all(|i| have.contains_key(i)) { return None; }
+            {
+                let (paths, _, cols, _) = lh::proof_parts_mut(&mut pf[0]);
+                for (j, i) in want.iter().enumerate() {
+                    let (pa, co) = &have[i];
+                    if cols[j] != *co { return None; }      // the layout assumption does not hold: no attack
+                    paths[j] = pa.clone();
+                }
+            }
+            let mut values = vec![fake];
+            for q in polys[1..].iter() { values.push(evalf(q.polynomial(), pt)); }
+            Some((pf, values))
+        }
+    };
+}
+
 fn ligero_params(c: &Case) -> Option<ark_poly_commit::linear_codes::LigeroPCParams<Fr, MTConfig, ColH<Fr>>> {
     if !c.has("lig") { return None; }
     let v = c.usizes("lig");   // sec_param rho_inv check_well_formedness
@@ -551,6 +618,9 @@ impl Adapter for LigeroUniA {
     fn reference_commitment(ck: &CK<Self>, p: &UniPoly, _b: Option<usize>, cm: &Cm<Self>, _st: &St<Self>) -> Option<bool> {
         reference_root::<UnivariateLigero<Fr, MTConfig, UniPoly, ColH<Fr>>, UniPoly>(ck, p.coeffs.clone(), cm)
     }
+    rs_transplant_attack!(LigeroUniPC,
+        |p: &UniPoly, n_cols: usize, w: Fr| { use ark_ff::Field; DensePolynomial::from_coefficients_vec(p.coeffs.iter().enumerate().map(|(j, c)| *c * w.pow([(j % n_cols) as u64])).collect()) },
+        |p: &UniPoly, z: &Fr| { use ark_poly::Polynomial; p.evaluate(z) });
 }
 pub struct LigeroMLA;
 impl Adapter for LigeroMLA {
@@ -569,6 +639,12 @@ impl Adapter for LigeroMLA {
         use ark_poly::MultilinearExtension;
         reference_root::<MultilinearLigero<Fr, MTConfig, SparseMultilinearExtension<Fr>, ColH<Fr>>, SparseMultilinearExtension<Fr>>(ck, p.to_evaluations(), cm)
     }
+    rs_transplant_attack!(LigeroMLPC,
+        |p: &SparseMultilinearExtension<Fr>, n_cols: usize, w: Fr| {
+            use ark_ff::Field; use ark_poly::MultilinearExtension;
+            let ev: Vec<(usize, Fr)> = p.to_evaluations().into_iter().enumerate().map(|(j, c)| (j, c * w.pow([(j % n_cols) as u64]))).filter(|(_, c)| !c.is_zero()).collect();
+            SparseMultilinearExtension::from_evaluations(p.num_vars(), &ev) },
+        |p: &SparseMultilinearExtension<Fr>, z: &Vec<Fr>| { use ark_poly::Polynomial; p.evaluate(z) });
 }
 pub struct BrakedownMLA;
 impl Adapter for BrakedownMLA {
